@@ -1,107 +1,385 @@
-"""C07 translator 3/3: the five `__call__` bodies of thermosteam/mixture/ideal_mixture_model.py.
+"""C07 translator 3/8: the five `__call__` bodies of thermosteam/mixture/ideal_mixture_model.py.
 
-Accepted body of `__call__(self, [phase,] mol, T[, P[=None]])`:
-    if mol.__class__ is not SparseVector: mol = SparseVector(mol)      (normalisation; the model's `mol`
-                                                                         is already dct.items() of the SparseVector)
-    total_mol = mol.sum()                                               (optional)
-    models = self.models
-    return sum([<expr over j, total_mol, T, P, models[i](<params>), log> for i, j in mol.dct.items()])
-Anything else is a TranslatorError.  `IdealHvapModel` (heat of vaporisation; not part of C07) is listed,
-not translated; any other class with a `__call__` must translate."""
-import ast, os
+The body of `__call__(self, [phase,] mol, T[, P[=None]])` is run by a small symbolic interpreter; what matters is the
+meaning, not the spelling.  Accepted (anything else is a TranslatorError naming file, line and node):
+
+  normalisation   `mol` (or a new name) becomes the SparseVector of the argument by
+                     if mol.__class__ is not SparseVector: mol = SparseVector(mol)        (also the inverted if / else form),
+                     x = SparseVector(mol),
+                     x = <helper>(mol) / x = self.<helper>(mol)   where the helper, a function of this module or a method
+                     of the class, returns its argument when `arg.__class__ is SparseVector` and SparseVector(arg) otherwise
+                     on every path (checked by enumerating its paths);
+                  the model's `mol` is dct.items() of that SparseVector
+  aliases         x = self.models;  x = <sparse>.sum();  x = sum(...);  plain renamings  x = y
+  helpers         a call of a module-level function / same-class method whose body is a single `return <expr>` is inlined
+                  (its arguments must be names)
+  the fold        sum([<expr> for a, b in <sparse>.dct.items()])                  or, equivalently,
+                     acc = []
+                     for a, b in <sparse>.dct.items():
+                         t = <expr> ...                (temporaries: evaluated once, in this order -> bind)
+                         acc.append(<expr>)
+                     ... sum(acc)
+                  (same list, same order, same `sum`).  A filter (comprehension `if`, `continue`, conditional append) changes
+                  the summands and is rejected for these five classes; `+=` accumulation is a different summation and is rejected
+  summands        numbers in scope, + - * /, log, <models>[<index>](<parameters of __call__>)
+
+`IdealHvapModel` (heat of vaporisation; not part of C07) is listed, not translated; any other class with a `__call__`
+must translate.  Module-level helper functions are accepted (used ones are inlined, unused ones are listed)."""
+import ast, os, copy
 from C07_pysubset import Src, ExprTr, TranslatorError, module_imports, strip_docstring, header
 
 REL = 'thermosteam/mixture/ideal_mixture_model.py'
 EXPECTED = ['IdealTPMixtureModel', 'IdealEntropyModel', 'IdealTMixtureModel',
             'SinglePhaseIdealTMixtureModel', 'SinglePhaseIdealTPMixtureModel']
 NOT_C07 = {'IdealHvapModel'}
-NORMALISE = "If(test=Compare(left=Attribute(value=Name(id='mol', ctx=Load()), attr='__class__', ctx=Load()), ops=[IsNot()], comparators=[Name(id='SparseVector', ctx=Load())]), body=[Assign(targets=[Name(id='mol', ctx=Store())], value=Call(func=Name(id='SparseVector', ctx=Load()), args=[Name(id='mol', ctx=Load())], keywords=[]))], orelse=[])"
 INIT = "[Assign(targets=[Attribute(value=Name(id='self', ctx=Load()), attr='models', ctx=Store())], value=Call(func=Name(id='tuple', ctx=Load()), args=[Name(id='models', ctx=Load())], keywords=[])), Assign(targets=[Attribute(value=Name(id='self', ctx=Load()), attr='var', ctx=Store())], value=Name(id='var', ctx=Load()))]"
 PTYPE = {'phase': 'phase', 'mol': 'list (nat * A)', 'T': 'option A', 'P': 'option A'}
 
 
-def translate_call(src, cls, fn, imports):
-    a = fn.args
-    if a.vararg or a.kwarg or a.kwonlyargs or a.posonlyargs:
-        src.err(fn, 'only plain parameters are in the subset')
-    names = [x.arg for x in a.args]
-    if names[0] != 'self' or any(n not in PTYPE for n in names[1:]) or 'mol' not in names or 'T' not in names:
-        src.err(fn, f'parameters {names} are outside the subset (self, [phase,] mol, T[, P])')
-    for dflt in a.defaults:
-        if not (isinstance(dflt, ast.Constant) and dflt.value is None):
-            src.err(fn, 'only `=None` defaults are in the subset')
-    if a.defaults and (len(a.defaults) != 1 or names[-1] != 'P'):
-        src.err(fn, 'only P may have a default')
-    params = names[1:]
-    body = strip_docstring(src, fn.body)
-    if not body or ast.dump(body[0]) != NORMALISE:
-        src.err(body[0] if body else fn, 'first statement must be the SparseVector normalisation of mol')
-    body = body[1:]
-    lines, nclose = [], 0
-    have_models = False
-    scalars = {p for p in params if PTYPE[p] == 'option A'}
-    plain = set()       # Gallina variables of type A
-    mtype = {}
-    while body and isinstance(body[0], ast.Assign):
-        st = body.pop(0)
-        if len(st.targets) != 1 or not isinstance(st.targets[0], ast.Name):
-            src.err(st, 'assignment target is outside the subset')
-        t, v = st.targets[0].id, st.value
-        if t == 'models' and ast.dump(v) == "Attribute(value=Name(id='self', ctx=Load()), attr='models', ctx=Load())":
-            have_models = True
-        elif t == 'total_mol' and ast.dump(v) == "Call(func=Attribute(value=Name(id='mol', ctx=Load()), attr='sum', ctx=Load()), args=[], keywords=[])":
-            lines.append('bind (sv_sum O mol) (fun total_mol : option A =>')
-            nclose += 1
-            scalars.add('total_mol')
+def is_sparse_test(src, test):
+    """`x.__class__ is SparseVector` -> (x, True); `... is not ...` -> (x, False); also `not (...)`"""
+    if isinstance(test, ast.UnaryOp) and isinstance(test.op, ast.Not):
+        r = is_sparse_test(src, test.operand)
+        return None if r is None else (r[0], not r[1])
+    if isinstance(test, ast.Compare) and len(test.ops) == 1 and isinstance(test.ops[0], (ast.Is, ast.IsNot)) \
+            and isinstance(test.left, ast.Attribute) and test.left.attr == '__class__' and isinstance(test.left.value, ast.Name) \
+            and isinstance(test.comparators[0], ast.Name) and test.comparators[0].id == 'SparseVector':
+        return test.left.value.id, isinstance(test.ops[0], ast.Is)
+    if isinstance(test, ast.Call) and isinstance(test.func, ast.Name) and test.func.id == 'isinstance':
+        return None     # isinstance also accepts subclasses: a different test
+    return None
+
+
+def normaliser_paths(src, stmts, env, out):
+    """enumerate the paths of a statement list over the abstract values RAW (the argument, class unknown), RAWS (the
+    argument, known to be a SparseVector), RAWN (known not to be one), SPARSE (a SparseVector with the argument's entries).
+    `out` collects ('return', value) and, for fall-through, ('end', env)."""
+    if not stmts:
+        out.append(('end', env)); return
+    st, rest = stmts[0], stmts[1:]
+
+    def val(n, e):
+        if isinstance(n, ast.Name) and n.id in e:
+            return e[n.id]
+        if isinstance(n, ast.Call) and isinstance(n.func, ast.Name) and n.func.id == 'SparseVector' and len(n.args) == 1 and not n.keywords:
+            v = val(n.args[0], e)
+            if v in ('RAW', 'RAWS', 'RAWN', 'SPARSE'):
+                return 'SPARSE'
+        if isinstance(n, ast.IfExp):
+            r = is_sparse_test(src, n.test)
+            if r is not None and e.get(r[0]) in ('RAW', 'RAWS', 'RAWN'):
+                var, pos = r
+                vals = set()
+                for known, branch in ((True, n.body if pos else n.orelse), (False, n.orelse if pos else n.body)):
+                    if e[var] == 'RAWS' and not known or e[var] == 'RAWN' and known: continue
+                    vals.add(val(branch, dict(e, **{var: 'RAWS' if known else 'RAWN'})))
+                vals = {'SPARSE' if v == 'RAWS' else v for v in vals}
+                if len(vals) == 1: return vals.pop()
+        src.err(n, 'expression of the SparseVector normalisation is outside the subset')
+
+    if isinstance(st, ast.Pass) or (isinstance(st, ast.Expr) and isinstance(st.value, ast.Constant) and isinstance(st.value.value, str)):
+        return normaliser_paths(src, rest, env, out)
+    if isinstance(st, ast.Return) and st.value is not None:
+        out.append(('return', val(st.value, env))); return
+    if isinstance(st, ast.Assign) and len(st.targets) == 1 and isinstance(st.targets[0], ast.Name):
+        return normaliser_paths(src, rest, dict(env, **{st.targets[0].id: val(st.value, env)}), out)
+    if isinstance(st, ast.If):
+        r = is_sparse_test(src, st.test)
+        if r is None or env.get(r[0]) not in ('RAW', 'RAWS', 'RAWN'):
+            src.err(st.test, 'condition of the SparseVector normalisation is outside the subset')
+        var, pos = r
+        for known in (True, False):
+            if env[var] == 'RAWS' and not known or env[var] == 'RAWN' and known: continue
+            branch = (st.body if pos else st.orelse) if known else (st.orelse if pos else st.body)
+            normaliser_paths(src, list(branch) + rest, dict(env, **{var: 'RAWS' if known else 'RAWN'}), out)
+        return
+    src.err(st, 'statement of the SparseVector normalisation is outside the subset')
+
+
+def sparse_on_all_paths(src, results, what):
+    vals = set()
+    for kind, v in results:
+        vals.add(v)
+    return vals and vals <= {'SPARSE', 'RAWS'}      # a SparseVector holding the argument's entries (possibly the argument itself)
+
+
+class CallTr:
+    def __init__(self, src, cls, fn, imports, functions, methods):
+        self.src, self.cls, self.fn, self.imports = src, cls, fn, imports
+        self.functions, self.methods = functions, methods
+        self.used_helpers = set()
+        self.mtype = None
+        self.lines, self.nclose = [], 0
+        self.counter = {}
+
+    def fresh(self, name):
+        k = self.counter.get(name, 0); self.counter[name] = k + 1
+        return f'v_{name}' if k == 0 else f'v_{name}_{k}'
+
+    # ---------------------------------------------------------------- helpers
+    def helper(self, call):
+        """(FunctionDef, parameter names without self, argument nodes) of a call of a module function or same-class method"""
+        f = call.func
+        if call.keywords: return None
+        if isinstance(f, ast.Name) and f.id in self.functions:
+            fn = self.functions[f.id]; params = [a.arg for a in fn.args.args]
+        elif isinstance(f, ast.Attribute) and isinstance(f.value, ast.Name) and f.value.id == 'self' and f.attr in self.methods \
+                and not f.attr.startswith('__'):
+            fn = self.methods[f.attr]; params = [a.arg for a in fn.args.args][1:]
         else:
-            src.err(st, 'assignment is outside the subset (models = self.models | total_mol = mol.sum())')
-    if len(body) != 1 or not isinstance(body[0], ast.Return):
-        src.err(body[0] if body else fn, 'expected a single final `return sum([...])`')
-    r = body[0].value
-    ok = (isinstance(r, ast.Call) and isinstance(r.func, ast.Name) and r.func.id == 'sum' and len(r.args) == 1
-          and not r.keywords and isinstance(r.args[0], ast.ListComp) and len(r.args[0].generators) == 1)
-    if not ok:
-        src.err(body[0], 'return value must be sum([<expr> for i, j in mol.dct.items()])')
-    g = r.args[0].generators[0]
-    if g.ifs or g.is_async or ast.dump(g.target) != "Tuple(elts=[Name(id='i', ctx=Store()), Name(id='j', ctx=Store())], ctx=Store())" \
-            or ast.dump(g.iter) != "Call(func=Attribute(value=Attribute(value=Name(id='mol', ctx=Load()), attr='dct', ctx=Load()), attr='items', ctx=Load()), args=[], keywords=[])":
-        src.err(r, 'comprehension must be `for i, j in mol.dct.items()` without a filter')
+            return None
+        a = fn.args
+        if a.vararg or a.kwarg or a.kwonlyargs or a.defaults or fn.decorator_list or len(params) != len(call.args):
+            self.src.err(call, f'helper {fn.name} has a signature outside the subset')
+        self.used_helpers.add(fn.name)
+        return fn, params, call.args
 
-    def name(n):
-        if n.id in scalars:
-            return f'(pv {n.id})'
-        if n.id == 'j':
-            return '(pv (Some j))'
-        src.err(n, f'name {n.id!r} is not a number in scope')
+    def is_normaliser_call(self, call, env):
+        h = self.helper(call) if isinstance(call, ast.Call) else None
+        if h is None: return None
+        fn, params, args = h
+        if len(args) != 1 or not isinstance(args[0], ast.Name): return None
+        v = env.get(args[0].id)
+        if v is None or v[0] not in ('raw', 'sparse'): return None
+        out = []
+        normaliser_paths(self.src, strip_docstring(self.src, fn.body), {params[0]: 'RAW' if v[0] == 'raw' else 'RAWS'}, out)
+        if any(k == 'end' for k, _ in out):
+            self.src.err(fn, f'helper {fn.name} may fall through without returning')
+        if not sparse_on_all_paths(self.src, out, fn.name):
+            self.src.err(call, f'helper {fn.name} does not return the SparseVector of its argument on every path')
+        return True
 
-    def call(n):
-        f = n.func
-        if isinstance(f, ast.Subscript):
-            if not have_models:
-                src.err(n, '`models` is not bound to self.models')
-            if ast.dump(f.value) != "Name(id='models', ctx=Load())" or ast.dump(f.slice) != "Name(id='i', ctx=Load())":
-                src.err(n, 'only models[i](...) is in the subset')
-            args = []
-            for x in n.args:
-                if not (isinstance(x, ast.Name) and x.id in params and x.id != 'mol'):
-                    src.err(x, 'model arguments must be parameters of __call__')
-                args.append(x.id)
-            ty = ' -> '.join([PTYPE[x] for x in args] + ['pyv A'])
-            if mtype.setdefault('t', ty) != ty:
-                src.err(n, 'models are called with two different signatures')
-            return f'(bind (subscript models i) (fun f => f {" ".join(args)}))'
-        return None
+    def inline_expr(self, n):
+        """replace calls of single-`return` helpers by their body (arguments must be names)"""
+        src = self.src
 
-    logs = [k for k, v in imports.items() if v == ('math', 'log')]
-    term = ExprTr(src, name, lambda n: None, call, logs).tr(r.args[0].elt)
-    if 't' not in mtype:
-        src.err(r, 'the summand never calls models[i]')
-    binders = ' '.join(f'({p} : {PTYPE[p]})' for p in params)
-    text = (f'(* {REL}:{fn.lineno}  {cls}.__call__({", ".join(names)}) *)\n'
-            f'Definition {cls}_call {{A : Type}} (E : env A) (models : list ({mtype["t"]})) {binders} : pyv A :=\n'
-            f'  let O := eO E in\n  ' + '\n  '.join(lines) +
-            ('\n  ' if lines else '') + f'(py_sum O (items_map (fun (i : nat) (j : A) => {term}) mol))' + ')' * nclose + '.\n')
-    return text, {'class': cls, 'line': fn.lineno, 'params': params, 'model_type': mtype['t']}
+        class T(ast.NodeTransformer):
+            def visit_Call(s, node):
+                node = s.generic_visit(node)
+                h = self.helper(node)
+                if h is None: return node
+                fn, params, args = h
+                body = strip_docstring(src, fn.body)
+                if len(body) != 1 or not isinstance(body[0], ast.Return) or body[0].value is None:
+                    src.err(node, f'helper {fn.name} is not a single `return <expr>` and is not a SparseVector normalisation here')
+                if not all(isinstance(a, ast.Name) for a in args):
+                    src.err(node, f'arguments of helper {fn.name} must be names')
+                m = {p: a for p, a in zip(params, args)}
+                locals_ = {x.id for x in ast.walk(body[0].value) if isinstance(x, ast.Name)} - set(m)
+
+                class S(ast.NodeTransformer):
+                    def visit_Name(s2, nm):
+                        return ast.copy_location(copy.deepcopy(m[nm.id]), nm) if nm.id in m else nm
+                new = S().visit(copy.deepcopy(body[0].value))
+                return ast.copy_location(s.visit(new), node)
+        return T().visit(copy.deepcopy(n))
+
+    # ---------------------------------------------------------------- values
+    def is_sparse_name(self, n, env):
+        return isinstance(n, ast.Name) and env.get(n.id, (None,))[0] == 'sparse'
+
+    def is_items(self, n, env):
+        return (isinstance(n, ast.Call) and not n.args and not n.keywords and isinstance(n.func, ast.Attribute) and n.func.attr == 'items'
+                and isinstance(n.func.value, ast.Attribute) and n.func.value.attr == 'dct' and self.is_sparse_name(n.func.value.value, env))
+
+    def loop_vars(self, target):
+        if not (isinstance(target, ast.Tuple) and len(target.elts) == 2 and all(isinstance(e, ast.Name) for e in target.elts)):
+            self.src.err(target, 'loop target must be `index, value`')
+        return target.elts[0].id, target.elts[1].id
+
+    def summand(self, node, env, ivar, jvar, temps):
+        src = self.src
+        node = self.inline_expr(node)
+
+        def name(n):
+            if n.id == jvar: return '(pv (Some j))'
+            if n.id in temps: return f'(pv {temps[n.id]})'
+            v = env.get(n.id)
+            if v is not None and v[0] == 'num': return f'(pv {v[1]})'
+            src.err(n, f'name {n.id!r} is not a number in scope')
+
+        def call(n):
+            f = n.func
+            if isinstance(f, ast.Subscript):
+                if not (isinstance(f.value, ast.Name) and env.get(f.value.id, (None,))[0] == 'models'):
+                    src.err(n, 'only <self.models>[<index>](...) is in the subset')
+                if not (isinstance(f.slice, ast.Name) and f.slice.id == ivar):
+                    src.err(n, 'the model must be selected by the loop index')
+                args = []
+                for x in n.args:
+                    if not (isinstance(x, ast.Name) and env.get(x.id, (None,))[0] == 'param'):
+                        src.err(x, 'model arguments must be parameters of __call__')
+                    args.append(env[x.id][1])
+                ty = ' -> '.join([PTYPE[x] for x in args] + ['pyv A'])
+                if self.mtype is None: self.mtype = ty
+                if self.mtype != ty:
+                    src.err(n, 'models are called with two different signatures')
+                return f'(bind (subscript models i) (fun f => f {" ".join(args)}))'
+            return None
+
+        def pname(n):       # parameters T, P are numbers too
+            v = env.get(n.id)
+            if v is not None and v[0] == 'param' and PTYPE[v[1]] == 'option A': return f'(pv {v[1]})'
+            return name(n)
+        logs = [k for k, v in self.imports.items() if v == ('math', 'log')]
+        return ExprTr(src, pname, lambda n: None, call, logs).tr(node)
+
+    def fold_of_comprehension(self, lc, env):
+        if len(lc.generators) != 1: self.src.err(lc, 'one generator expected')
+        g = lc.generators[0]
+        if g.is_async or not self.is_items(g.iter, env):
+            self.src.err(lc, 'the comprehension must run over <SparseVector>.dct.items()')
+        if g.ifs:
+            self.src.err(g.ifs[0], 'a filter changes the summands of the mixture model')
+        ivar, jvar = self.loop_vars(g.target)
+        return f'(fun (i : nat) (j : A) => {self.summand(lc.elt, env, ivar, jvar, {})})'
+
+    def fold_of_loop(self, st, env):
+        """for a, b in sv.dct.items(): temporaries ...; acc.append(expr)  ->  (accumulator name, element function)"""
+        src = self.src
+        if st.orelse or not self.is_items(st.iter, env):
+            src.err(st, 'the loop must run over <SparseVector>.dct.items() (no else)')
+        ivar, jvar = self.loop_vars(st.target)
+        temps, binds = {}, []
+        body = list(st.body)
+        if not body: src.err(st, 'empty loop')
+        for s_ in body[:-1]:
+            if isinstance(s_, ast.Assign) and len(s_.targets) == 1 and isinstance(s_.targets[0], ast.Name):
+                t = s_.targets[0].id
+                if t in (ivar, jvar) or t in env:
+                    src.err(s_, f'{t} is re-bound inside the loop')
+                term = self.summand(s_.value, env, ivar, jvar, temps)
+                x = self.fresh(t)
+                binds.append(f'bind {term} (fun {x} : option A => ')
+                temps[t] = x
+            else:
+                src.err(s_, 'statement inside the loop is outside the subset (temporaries, then one append; a filter or `+=` changes the fold)')
+        last = body[-1]
+        ok = (isinstance(last, ast.Expr) and isinstance(last.value, ast.Call) and isinstance(last.value.func, ast.Attribute)
+              and last.value.func.attr == 'append' and isinstance(last.value.func.value, ast.Name)
+              and len(last.value.args) == 1 and not last.value.keywords)
+        if not ok:
+            src.err(last, 'the loop must end with <acc>.append(<expr>)')
+        acc = last.value.func.value.id
+        if env.get(acc, (None,))[0] != 'emptylist':
+            src.err(last, f'{acc} is not a list that was empty before the loop')
+        term = self.summand(last.value.args[0], env, ivar, jvar, temps)
+        return acc, '(fun (i : nat) (j : A) => ' + ''.join(binds) + term + ')' * len(binds) + ')'
+
+    def sum_value(self, n, env):
+        """sum(<list>) -> Gallina term of type pyv A, or None"""
+        if not (isinstance(n, ast.Call) and isinstance(n.func, ast.Name) and n.func.id == 'sum' and len(n.args) == 1 and not n.keywords):
+            return None
+        a = n.args[0]
+        if isinstance(a, ast.ListComp):
+            f = self.fold_of_comprehension(a, env)
+        elif isinstance(a, ast.Name) and env.get(a.id, (None,))[0] == 'list':
+            f = env[a.id][1]
+        elif isinstance(a, ast.GeneratorExp):
+            self.src.err(a, 'sum over a generator is summed like a list, but is outside the subset')
+        else:
+            self.src.err(a, 'sum() must be applied to the list of summands')
+        return f'(py_sum O (items_map {f} mol))'
+
+    # ---------------------------------------------------------------- statements
+    def run(self):
+        src, fn = self.src, self.fn
+        a = fn.args
+        if a.vararg or a.kwarg or a.kwonlyargs or a.posonlyargs:
+            src.err(fn, 'only plain parameters are in the subset')
+        names = [x.arg for x in a.args]
+        if names[0] != 'self' or any(n not in PTYPE for n in names[1:]) or 'mol' not in names or 'T' not in names:
+            src.err(fn, f'parameters {names} are outside the subset (self, [phase,] mol, T[, P])')
+        for dflt in a.defaults:
+            if not (isinstance(dflt, ast.Constant) and dflt.value is None):
+                src.err(fn, 'only `=None` defaults are in the subset')
+        if a.defaults and (len(a.defaults) != 1 or names[-1] != 'P'):
+            src.err(fn, 'only P may have a default')
+        params = names[1:]
+        env = {p: ('param', p) for p in params if p != 'mol'}
+        env['mol'] = ('raw',)
+        result = None
+        body = strip_docstring(src, fn.body)
+        for k, st in enumerate(body):
+            if result is not None:
+                src.err(st, 'statement after the return')
+            # normalisation by an if statement
+            if isinstance(st, ast.If):
+                out = []
+                r = is_sparse_test(src, st.test)
+                if r is None or env.get(r[0], (None,))[0] != 'raw':
+                    src.err(st, '`if` is outside the subset (only the SparseVector normalisation of the argument)')
+                normaliser_paths(src, [st], {r[0]: 'RAW'}, out)
+                if any(kd == 'return' for kd, _ in out):
+                    src.err(st, 'the normalisation must not return')
+                ends = [e for kd, e in out]
+                changed = {n for e in ends for n in e if n != r[0]}
+                if changed or not all(e[r[0]] in ('SPARSE', 'RAWS') for e in ends):
+                    src.err(st, f'{r[0]} is not the SparseVector of the argument on every path')
+                env[r[0]] = ('sparse',)
+                continue
+            if isinstance(st, ast.Assign) and len(st.targets) == 1 and isinstance(st.targets[0], ast.Name):
+                t, v = st.targets[0].id, st.value
+                if t in env and env[t][0] == 'param':
+                    src.err(st, f'parameter {t} is re-bound')
+                if isinstance(v, ast.Call) and self.is_normaliser_call(v, env):
+                    env[t] = ('sparse',)
+                elif isinstance(v, ast.Call) and isinstance(v.func, ast.Name) and v.func.id == 'SparseVector' and len(v.args) == 1 \
+                        and not v.keywords and isinstance(v.args[0], ast.Name) and env.get(v.args[0].id, (None,))[0] in ('raw', 'sparse'):
+                    env[t] = ('sparse',)
+                elif ast.dump(v) == "Attribute(value=Name(id='self', ctx=Load()), attr='models', ctx=Load())":
+                    env[t] = ('models',)
+                elif isinstance(v, ast.Name) and v.id in env and env[v.id][0] in ('sparse', 'models', 'num', 'list', 'result'):
+                    env[t] = env[v.id]
+                elif isinstance(v, ast.Call) and not v.args and not v.keywords and isinstance(v.func, ast.Attribute) and v.func.attr == 'sum' \
+                        and self.is_sparse_name(v.func.value, env):
+                    x = self.fresh(t)
+                    self.lines.append(f'bind (sv_sum O mol) (fun {x} : option A =>'); self.nclose += 1
+                    env[t] = ('num', x)
+                elif isinstance(v, ast.List) and not v.elts:
+                    env[t] = ('emptylist',)
+                elif self.sum_value(v, env) is not None:
+                    x = self.fresh(t)
+                    self.lines.append(f'bind {self.sum_value(v, env)} (fun {x} : option A =>'); self.nclose += 1
+                    env[t] = ('result', x)
+                else:
+                    # any other expression that is the SparseVector of the argument on every path (e.g. `x if <test> else SparseVector(x)`)
+                    absenv = {k_: ('RAW' if v_[0] == 'raw' else 'SPARSE') for k_, v_ in env.items() if v_[0] in ('raw', 'sparse')}
+                    out = []
+                    try:
+                        r_ = ast.Return(value=v); ast.copy_location(r_, st)
+                        normaliser_paths(src, [r_], absenv, out)
+                        ok_ = sparse_on_all_paths(src, out, t)
+                    except TranslatorError:
+                        ok_ = False
+                    if not ok_:
+                        src.err(st, 'assignment is outside the subset')
+                    env[t] = ('sparse',)
+                continue
+            if isinstance(st, ast.For):
+                acc, f = self.fold_of_loop(st, env)
+                env[acc] = ('list', f)
+                continue
+            if isinstance(st, ast.Return) and st.value is not None:
+                sv = self.sum_value(st.value, env)
+                if sv is not None:
+                    result = sv
+                elif isinstance(st.value, ast.Name) and env.get(st.value.id, (None,))[0] == 'result':
+                    result = f'(pv {env[st.value.id][1]})'
+                else:
+                    src.err(st, 'return value must be the sum of the summands')
+                continue
+            src.err(st, 'statement is outside the subset')
+        if result is None:
+            src.err(fn, '__call__ does not return')
+        if self.mtype is None:
+            src.err(fn, 'the summand never calls the pure-component models')
+        binders = ' '.join(f'({p} : {PTYPE[p]})' for p in params)
+        text = (f'(* {REL}:{fn.lineno}  {self.cls}.__call__({", ".join(names)}) *)\n'
+                f'Definition {self.cls}_call {{A : Type}} (E : env A) (models : list ({self.mtype})) {binders} : pyv A :=\n'
+                f'  let O := eO E in\n  ' + '\n  '.join(self.lines) + ('\n  ' if self.lines else '') + result + ')' * self.nclose + '.\n')
+        return text, {'class': self.cls, 'line': fn.lineno, 'params': params, 'model_type': self.mtype,
+                      'helpers_inlined': sorted(self.used_helpers)}
 
 
 def run(repo, out_dir):
@@ -109,9 +387,14 @@ def run(repo, out_dir):
     imports = module_imports(src)
     if imports.get('SparseVector') != ('..base', 'SparseVector'):
         raise TranslatorError(f'{REL}: SparseVector is not imported from ..base')
-    texts, metas, skipped = [], [], []
+    functions = {}
     for st in src.tree.body:
-        if isinstance(st, (ast.Import, ast.ImportFrom)):
+        if isinstance(st, ast.FunctionDef):
+            if st.name in functions: src.err(st, f'function {st.name} defined twice')
+            functions[st.name] = st
+    texts, metas, skipped, used = [], [], [], set()
+    for st in src.tree.body:
+        if isinstance(st, (ast.Import, ast.ImportFrom, ast.FunctionDef)):
             continue
         if isinstance(st, ast.Expr) and isinstance(st.value, ast.Constant) and isinstance(st.value.value, str):
             continue
@@ -127,14 +410,16 @@ def run(repo, out_dir):
             continue
         if len(calls) != 1:
             src.err(st, f'class {st.name} has {len(calls)} __call__ methods')
+        methods = {}
         for x in st.body:
             if isinstance(x, ast.FunctionDef):
                 if x.decorator_list:
                     src.err(x, 'decorated method')
                 if x.name == '__init__' and ('[' + ', '.join(ast.dump(y) for y in x.body) + ']').replace(' ', '') != INIT.replace(' ', ''):
                     src.err(x, '__init__ must be `self.models = tuple(models); self.var = var`')
-                if x.name not in ('__init__', '__call__', '__repr__'):
+                if x.name.startswith('__') and x.name not in ('__init__', '__call__', '__repr__'):
                     src.err(x, f'method {x.name} is outside the subset')
+                methods[x.name] = x
             elif isinstance(x, ast.Assign):
                 if len(x.targets) != 1 or not isinstance(x.targets[0], ast.Name):
                     src.err(x, 'class-level assignment is outside the subset')
@@ -150,7 +435,9 @@ def run(repo, out_dir):
         if not any((isinstance(x, ast.FunctionDef) and x.name == '__init__') or
                    (isinstance(x, ast.Assign) and x.targets[0].id == '__init__') for x in st.body):
             src.err(st, f'class {st.name} has no __init__')
-        text, meta = translate_call(src, st.name, calls[0], imports)
+        tr = CallTr(src, st.name, calls[0], imports, functions, methods)
+        text, meta = tr.run()
+        used |= tr.used_helpers
         texts.append(text)
         metas.append(meta)
     found = [m['class'] for m in metas]
@@ -161,4 +448,5 @@ def run(repo, out_dir):
     import vf
     vf.write_if_changed(os.path.join(out_dir, 'Gen_MixtureModels.v'), out)
     return {'file': 'coq/C07/Gen_MixtureModels.v', 'source': REL, 'sha256': src.sha, 'translated': metas,
-            'not_translated': skipped}
+            'not_translated': skipped, 'helpers_inlined': sorted(used),
+            'helpers_unused': sorted(set(functions) - used)}
